@@ -495,9 +495,32 @@ def _order_stat_along(a, axis, fn):
     return out if out.shape != () else out[()]
 
 
+def _overwrite_with_order_stats(a, axis):
+    """overwrite_input=True: numpy documents that the input is then modified (partially or fully sorted) and must be
+    treated as undefined.  The stub models that effect by writing the order statistics back into the caller's array,
+    so code that keeps using the array afterwards is seen to use reordered data (concrete replay runs the real numpy)."""
+    if not isinstance(a, _np.ndarray) or a.dtype != object:
+        return
+    _used('numpy.median/percentile overwrite_input=True (input overwritten by its order statistics)')
+    if axis is None:
+        flat = sort_network(list(a.ravel()))
+        for k, idx in enumerate(_np.ndindex(*a.shape)):
+            a[idx] = flat[k]
+        return
+    v = _np.moveaxis(a, axis, -1)          # view: writes go to the caller's array
+    for idx in _np.ndindex(*v.shape[:-1]):
+        srt = sort_network(list(v[idx]))
+        for k in range(len(srt)):
+            v[idx + (k,)] = srt[k]
+
+
 def _median(a, axis=None, **kw):
     if has_sym(a):
         _used('numpy.median (order statistics as min/max terms)')
+        if kw.get('overwrite_input'):
+            res = _median(_np.array(a, dtype=object), axis=axis)
+            _overwrite_with_order_stats(a, axis)
+            return res
         if axis is None:
             a, axis = _np.asarray(a, dtype=object).ravel(), 0
 
@@ -511,6 +534,10 @@ def _median(a, axis=None, **kw):
 def _percentile(a, q, axis=None, **kw):
     if has_sym(a):
         _used('numpy.percentile (linear interpolation between order statistics as min/max terms)')
+        if kw.get('overwrite_input'):
+            res = _percentile(_np.array(a, dtype=object), q, axis=axis)
+            _overwrite_with_order_stats(a, axis)
+            return res
         if axis is None:
             a, axis = _np.asarray(a, dtype=object).ravel(), 0
         qs = list(_np.atleast_1d(q))
@@ -1410,10 +1437,24 @@ def build():
         'isscalar': _isscalar, 'real': _real, 'imag': _imag,
         'linalg': np_linalg, 'random': rnd,
     }
+    # in-place options (out=, overwrite_*) that a stub does not model must not be swallowed silently: with symbolic
+    # operands such a call ends the path as inconclusive (exit 2), never as "holds".  median/percentile model theirs.
+    def _guard_inplace(name, fn):
+        if not callable(fn) or isinstance(fn, (type, Facade)) or name in ('median', 'percentile'):
+            return fn
+
+        def guarded(*a, **kw):
+            if (kw.get('out') is not None or any(k.startswith('overwrite') and v for k, v in kw.items())) and any(has_sym(x) for x in a):
+                raise core.Inconclusive('stub for %s does not model the in-place option passed (%s)' % (name, sorted(kw)))
+            return fn(*a, **kw)
+        guarded.__name__ = getattr(fn, '__name__', name)
+        guarded.__wrapped__ = fn
+        return guarded
+    np_ov = {k: _guard_inplace(k, v) for k, v in np_ov.items()}
     npf = Facade(_np, np_ov, 'numpy')
 
     sp_linalg = Facade(_sp.linalg, {
-        'solve': _la_solve, 'solve_triangular': _solve_triangular,
+        'solve': _guard_inplace('solve', _la_solve), 'solve_triangular': _guard_inplace('solve_triangular', _solve_triangular),
         'inv': _mk_linalg(_sp.linalg.inv, sym_inv),
         'det': _mk_linalg(_sp.linalg.det, sym_det),
         'cholesky': _mk_linalg(_sp.linalg.cholesky, lambda A, lower=False, **k: sym_cholesky(A) if lower else sym_cholesky(A).T),
